@@ -77,6 +77,8 @@ def gen_cases(tier, seed):
     nc = 12 if tier == "quick" else 120
     for i in range(nc):
         cases.append({"id": "chunk-%03d" % i, "kind": "chunk", "seed": seed, "idx": 5000 + i, "_threads": 2})
+    for i in range(3 if tier == "quick" else 24):
+        cases.append({"id": "plancache-%03d" % i, "kind": "plancache", "seed": seed, "idx": 5500 + i, "n": 4, "_threads": 1})
     na = 12 if tier == "quick" else 120
     for i in range(na):
         cases.append({"id": "alias-%03d" % i, "kind": "alias", "seed": seed, "idx": 7000 + i, "_threads": 1})
@@ -85,7 +87,7 @@ def gen_cases(tier, seed):
 
 def run_case(case, rec):
     rng = rng_for(case["seed"], PROP_NO, case["idx"])
-    {"hist": _hist, "chunk": _chunk, "alias": _alias, "genhist": _genhist, "sdmxhist": _sdmxhist, "farblock": _farblock}[case["kind"]](case, rec, rng)
+    {"hist": _hist, "chunk": _chunk, "alias": _alias, "genhist": _genhist, "sdmxhist": _sdmxhist, "farblock": _farblock, "plancache": _plancache}[case["kind"]](case, rec, rng)
 
 
 def _farblock(case, rec, rng):
@@ -114,6 +116,58 @@ def _farblock(case, rec, rng):
                   mechanism="nr_%s:blocking:energy[far-apart-fragments]" % cfg["spin"], detail=det)
         rec.nontrivial("mm%g" % mm)
     rec.set_sample({"cfg": cfg, "distance_A": d, "ngrids": int(ks.grids.weights.size), "exc": float(np.atleast_1d(e0)[0])})
+
+
+def _plancache(case, rec, rng):
+    """NLDF plans keep the interpolation coefficients of every version-j/k parameter set from the forward call for the
+    potential call (a per-spin cache inside the plan).  The potential computed from that cache must equal the one computed
+    from coefficients handed over explicitly (freshly evaluated, each in its own array), for plans with several parameter
+    sets, and a second forward/backward round on the same plan must reproduce the first."""
+    from checks.c18 import _kw_nldf, _mk_nldf, _nldf_plan, _pointwise
+    for rep in range(case["n"]):
+        ver = ["j", "ij", "k"][(case["idx"] + rep) % 3]
+        nspin = 1 + (case["idx"] + rep) % 2
+        for _ in range(20):
+            kwn = _kw_nldf(ver, rng, rho_mult="one")
+            ns_ = _mk_nldf(ver, kwn)
+            if ns_.num_feat_param_sets >= 2:
+                break
+        pcls = ["gaussian", "spline"][(case["idx"] // 2 + rep) % 2]
+        p = _nldf_plan(ns_, nspin, rng, cls=pcls)
+        ng = int(rng.choice([64, 97]))
+        rd = _pointwise(rng, ng, 1, kwn["sl_level"])[0]
+        ncol = p.num_vi_ints + p.nalpha
+        fq = np.ascontiguousarray(rng.normal(size=(ng, ncol)))
+        spin = nspin - 1
+        nvj = ns_.num_feat_param_sets
+        rec.tag("plan", "%s,%s,nsets=%d,nspin=%d" % (ver, pcls, nvj, nspin))
+        mech = "NLDFPlan[%s,%s]:coefficient-cache" % (ver, pcls)
+
+        def bwd(explicit):
+            feat, dfeat = p.eval_rho_full(fq.copy(), rd.copy(), spin=spin)
+            vfeat = np.random.default_rng(7).normal(size=feat.shape)
+            vrho = np.zeros_like(rd)
+            pl = None
+            if explicit:
+                rt = p.get_rho_tuple(rd.copy())
+                pl = []
+                for i in range(nvj):
+                    a_g = p.get_interpolation_arguments(rt, i=i)[0]
+                    pl.append(np.array(p.get_interpolation_coefficients(a_g, i=i)[0], copy=True))
+            vf = p.eval_vxc_full(vfeat, vrho, dfeat, rd.copy(), spin=spin, p_i_qg=pl)
+            return np.array(feat), np.array(vf), vrho
+        f_c, vf_c, vr_c = bwd(False)
+        f_e, vf_e, vr_e = bwd(True)
+        f_2, vf_2, vr_2 = bwd(False)
+        sc = max(float(np.max(np.abs(vf_e))), 1e-300)
+        sr = max(float(np.max(np.abs(vr_e))), 1e-300)
+        rec.check("plan_cache_vs_explicit_coefficients", max(float(np.max(np.abs(vf_c - vf_e))) / sc, float(np.max(np.abs(vr_c - vr_e))) / sr),
+                  1e-12, mechanism=mech, detail={"nsets": nvj})
+        rec.check("plan_second_round", max(float(np.max(np.abs(vf_2 - vf_c))) / sc, float(np.max(np.abs(f_2 - f_c))) / max(float(np.max(np.abs(f_c))), 1e-300)),
+                  1e-13, mechanism=mech.replace("coefficient-cache", "repeat"))
+        if nvj >= 2:
+            rec.nontrivial("plancache|%s|%s|%d|%d" % (ver, pcls, nvj, nspin))
+    rec.set_sample({"kind": "plancache"})
 
 
 def _sdmxhist(case, rec, rng):
@@ -227,6 +281,10 @@ def _hist(case, rec, rng):
     reinit = {"taken": 0, "not_taken": 0}
     for step in range(case["nsteps"]):
         op = str(rng.choice(ops, p=probs / probs.sum()))
+        if step in (1, 3):
+            # every history changes the molecule early and again later (both nonlocal generators of a combined model
+            # have to follow it) - with the random draw alone about half of the histories never did
+            op = "other_mol"
         if op == "repeat" and last is None:
             op = "rks"
         max_memory = 2000
